@@ -44,19 +44,17 @@ pub fn run(ctx: &Ctx) -> (Report, Meta) {
         let (prob, base) = gen_case(&mut rng, &g);
         let m = mname(base.method);
         let nst = base.y0.len();
-        // requested times and events used by the subsets
+        // requested times and events used by the subsets (t_eval is completed below from the
+        // plain run's own accepted-step grid: exact step ends, a few ulps beside them, interior)
         let k = 2 + rng.below(9);
         let mut te: Vec<f64> = (0..k).map(|_| base.x0 + (base.xend - base.x0) * rng.f()).collect();
         te.push(base.xend);
-        te.sort_by(|a, b| a.partial_cmp(b).unwrap());
-        if base.dir() < 0.0 {
-            te.reverse();
-        }
-        te.dedup();
         let nev = 1 + rng.below(3);
         let evs: Vec<EvSpec> = (0..nev).map(|_| random_event(&mut rng, nst, base.x0, base.xend)).collect();
         let tmid = base.x0 + (base.xend - base.x0) * rng.range(0.1, 0.9);
+        let te_cell = std::cell::RefCell::new(te);
         let run_one = |mask: usize| -> Result<Obs, String> {
+            let te = te_cell.borrow().clone();
             let mut s = base.clone();
             s.t_eval = if mask & 1 != 0 { Some(te.clone()) } else { None };
             s.dense = mask & 2 != 0;
@@ -95,6 +93,29 @@ pub fn run(ctx: &Ctx) -> (Report, Meta) {
                 return;
             }
         };
+        {
+            // complete t_eval from the plain grid
+            let mut te = te_cell.borrow_mut();
+            let dirn = base.dir();
+            for (k, &g) in plain.t.iter().enumerate() {
+                if k == 0 {
+                    continue;
+                }
+                match rng.below(6) {
+                    0 | 1 => te.push(g),
+                    2 => te.push(g + dirn * 3e-13 * (1.0 + g.abs())),
+                    3 => te.push(g - dirn * 3e-13 * (1.0 + g.abs())),
+                    _ => {}
+                }
+            }
+            te.retain(|t| (*t - base.x0) * dirn >= 0.0 && (*t - base.xend) * dirn <= 0.0);
+            te.sort_by(|a, b| a.partial_cmp(b).unwrap());
+            if dirn < 0.0 {
+                te.reverse();
+            }
+            te.dedup();
+        }
+        let te: Vec<f64> = te_cell.borrow().clone();
         rep.eval();
         if plain.counters[4] >= 3 {
             rep.nontrivial(scn_hash(&base, &prob));
